@@ -304,15 +304,44 @@ class RunChild(Stage):
 
     def gen(self, d, tier):
         n = d.int(0, 6)
+        if d.chance(0.3):
+            # the program is a single word (an executable whose path contains a blank, a quote, a backslash...) followed by 0-2 words
+            return dict(exe=d.choice(['child prog', "child's", 'a "b" c', 'back\\slash', 'plain', 'tab\there', 'x y z', '$HOME', 'a;b']),
+                        after=[d.choice(AFTER) for _ in range(d.choice([0, 0, 0, 1, 2]))])
         return [d.choice(AFTER) if d.chance(0.8) else d.text(PRINTABLE, 0, 8) for _ in range(n)]
 
     def execute(self, after):
         res = Result()
+        exe = None
+        if isinstance(after, dict):
+            exe, after = after['exe'], after['after']
         with cli.Scratch() as sc:
             child = sc.write('child.py', cli.CHILD)
             report = sc.path('report.json')
             spec = sc.write('spec.json', json.dumps(dict(report=report, chunks=[], exit=0)))
-            rc, out, err = cli.run_main(['-C', '-r', cli.PY, child] + after, stdin=b'q\n', extra_env=dict(WDV_CHILD_SPEC=spec))
+            if exe is not None:
+                prog = sc.write(exe, '#!' + cli.PY + '\n' + cli.CHILD, exe=True)
+                command = [prog]
+                res.label('program-is-one-word' + ('-alone' if not after else ''))
+                # decoys: should the word be split or unquoted on its way, the program that starts instead reports too
+                import shlex
+                for variant in (exe.split(), exe.replace('\\', '').split(), exe.replace('"', '').replace("'", '').split()):
+                    if variant and variant[0] != exe and not os.path.exists(sc.path(variant[0])):
+                        sc.write(variant[0], '#!' + cli.PY + '\n' + cli.CHILD, exe=True)
+            else:
+                command = [cli.PY, child]
+            rc, out, err = cli.run_main(['-C', '-r'] + command + after, stdin=b'q\n', extra_env=dict(WDV_CHILD_SPEC=spec), timeout=30)
+            if rc is None and exe is not None and not os.path.exists(report):
+                # no sign of the program after 30 s. Slowness or a hang? A control run (a plain one-word program, same
+                # conditions) and a second, longer attempt decide: only "control starts, this one never does" counts
+                creport = sc.path('creport.json')
+                cspec = sc.write('cspec.json', json.dumps(dict(report=creport, chunks=[], exit=0)))
+                cprog = sc.write('plaincontrol', '#!' + cli.PY + '\n' + cli.CHILD, exe=True)
+                crc, _, _ = cli.run_main(['-C', '-r', cprog] + after, stdin=b'q\n', extra_env=dict(WDV_CHILD_SPEC=cspec), timeout=30)
+                rc2, _, err2 = cli.run_main(['-C', '-r'] + command + after, stdin=b'q\n', extra_env=dict(WDV_CHILD_SPEC=spec), timeout=90)
+                if crc is not None and os.path.exists(creport) and not os.path.exists(report):
+                    res.bad('program-not-started:one-word-program', 'program %r never started (twice, 30 s and 90 s) while a plain one-word program started at once; stderr %r' % (exe, (err2 or b'')[-300:]))
+                    return res
             if rc is None or b'Failed to join subprocess thread' in err:
                 res.label('timeout(inconclusive)')
                 return res
